@@ -33,9 +33,11 @@ class El:
 class Tower:
     """value of El = P / (q * prod_j D_j^d[j]);  all polynomial arithmetic is over ZZ (python ints: fast)"""
 
-    def __init__(self, roots, budget_s=60.0, rewrite_trig=True):
+    def __init__(self, roots, budget_s=60.0, rewrite_trig=True, sign_oracle=None):
         self.t0 = time.time()
         self.budget = budget_s
+        self.sign_oracle = sign_oracle  # callable(term) -> +1 / -1 / None : proven sign of a term under the hypotheses
+        self.hidden_squares = 0
         self.side_conditions = []
         if rewrite_trig:
             tr = TrigRewriter(roots)
@@ -295,10 +297,41 @@ class Tower:
                 rn, rd = math.isqrt(c.numerator), math.isqrt(c.denominator)
                 if rn * rn == c.numerator and rd * rd == c.denominator:
                     return El(self.gens[gj].mul_ground(rn), {}, rd)
+        root = self._perfect_square_root(N)
+        if root is not None:
+            self.hidden_squares += 1
+            return root
         gi = self.gidx[t.id]
         self.rad[gi] = N
         self.rad_order.append(gi)
         return El(self.gens[gi], {}, 1)
+
+    def _perfect_square_root(self, N):
+        """if the radical-free radicand N is the square of a rational function r whose sign the oracle can prove, return |r|"""
+        if self.sign_oracle is None or self._youngest_rad(N.P) is not None or len(N.P) > 400:
+            return None
+        try:
+            # N = P / (q prod D^e) = P q prod D^(e mod 2) / (q prod D^ceil(e/2))^2 ... use  N = [P * q * prod D^(e mod 2)] / [q * prod D^((e + e mod 2)/2)]^2
+            odd = {j: e % 2 for j, e in N.d.items()}
+            num = (N.P * self._dprod(odd)).mul_ground(N.q)
+            c, facs = num.sqf_list()
+            c = int(c)
+            if c <= 0:
+                return None
+            rc = math.isqrt(c)
+            if rc * rc != c or any(m % 2 for _, m in facs):
+                return None
+            rootP = self.R(rc)
+            for f, m in facs:
+                rootP = rootP * f ** (m // 2)
+            den = {j: (e + e % 2) // 2 for j, e in N.d.items()}
+            root = self._normalize(rootP, den, N.q)
+            sgn = self.sign_oracle(self.to_term(root))
+            if sgn is None:
+                return None
+            return root if sgn > 0 else self.neg(root)
+        except Exception:
+            return None
 
     def _build(self):
         el = self.elem
@@ -420,12 +453,12 @@ def sign_term(tw, e, memo=None):
     return n if keep is None else tm.div(n, keep)
 
 
-def is_zero(term, budget_s=60.0, control=None):
+def is_zero(term, budget_s=60.0, control=None, sign_oracle=None):
     """control: a term that must NOT normalise to zero (negative control sharing all sub-computations)"""
     t0 = time.time()
     try:
         with time_limit(budget_s):
-            tw = Tower([term] + ([control] if control is not None else []), budget_s)
+            tw = Tower([term] + ([control] if control is not None else []), budget_s, sign_oracle=sign_oracle)
             e = tw.root_elems()[0]
             if control is not None and e.P == 0 and tw.root_elems()[1].P == 0:
                 return "unsound", {"reason": "negative control normalised to zero", "time_s": time.time() - t0}
